@@ -117,9 +117,9 @@ class Conv:
             self.emit(do="snapshot")
             for e in sorted(st["env"]):
                 if st["env"][e] in ("configured", "running"):
-                    self.emit(do="poll", env=e, until=["ERROR", "GONE"], timeout_ms=700)
+                    self.emit(do="poll", env=e, until=["ERROR"], timeout_ms=700)
                 elif st["env"][e] == "error" and not (self.op and self.op["env"] == e):
-                    self.emit(do="poll", env=e, until=["ERROR", "GONE"], timeout_ms=4000)
+                    self.emit(do="poll", env=e, until=["ERROR"], timeout_ms=4000)
                     self.emit(do="snapshot")
 
     def lookahead(self, i, e, done_act):
@@ -171,20 +171,26 @@ class Conv:
         if self.held.pop(point, None):
             self.emit(do="c18_release", point=point, kind=kind)
 
+    def fault_need(self, i, e, done_act, gbp):
+        """The next fault that interrupts the request of env e after step i: (index, gates, hook) or None."""
+        what, j = self.lookahead(i, e, done_act)
+        if what != "fault":
+            return None
+        ph = self.acts[j - 1]["st"]["env"][e]
+        gates = gbp.get(ph)
+        if gates is None:
+            raise Undrivable("no hold point in phase %s" % ph)
+        hook = ph == "locked" and self.acts[j]["act"] == "DropConnection" and not self.child
+        return j, list(gates), hook
+
     def start_async(self, i, e, st, kind, done_act, gates_by_phase, **call):
         """Issue a request; asynchronously with gates when a fault interrupts it."""
-        what, j = self.lookahead(i, e, done_act)
         ntasks0 = call.pop("_ntasks", None)
-        if what != "fault":
+        need = self.fault_need(i, e, done_act, gates_by_phase)
+        if need is None:
             self.emit(**call)
             return
-        fault = self.acts[j]
-        ph = self.acts[j - 1]["st"]["env"][e]
-        is_drop = fault["act"] == "DropConnection"
-        gates = gates_by_phase.get(ph)
-        if gates is None:
-            raise Undrivable("no hold point for %s in phase %s" % (kind, ph))
-        hook = ph == "locked" and is_drop and not self.child
+        j, gates, hook = need
         ntasks = ntasks0 or len(tset(self.acts[j - 1]["st"]["etasks"][e])) or 1
         for g in gates:
             self.arm(g)
@@ -194,18 +200,39 @@ class Conv:
         self.nasync += 1
         caller = "A%d" % self.nasync
         doomed = self.will_err(i, e)
-        self.op = {"kind": kind, "env": e, "caller": caller, "gates": gates, "hook": hook, "ntasks": ntasks, "doomed": doomed}
+        self.op = {"kind": kind, "env": e, "caller": caller, "done": done_act, "gbp": gates_by_phase, "ntasks": ntasks, "doomed": doomed}
         self.emit(caller=caller, timeout_ms=6000 if doomed else 20000, **call)
 
-    def wait_op_held(self):
+    def wait_op_held(self, i):
+        """The fault at step i interrupts the outstanding request: wait until the core sits at the hold point of its phase."""
         op = self.op
-        if op["hook"]:
+        ph = self.acts[i - 1]["st"]["env"][op["env"]]
+        gates = op["gbp"].get(ph)
+        if gates is None or any(g not in self.held for g in gates):
+            raise Undrivable("the request cannot be held in phase %s" % ph)
+        if self.hookgate:
             self.emit(do="waitgate", point="task.lock", timeout_ms=10000)
-        for g in op["gates"]:
+        for g in gates:
             n = op["ntasks"] if (g == "LAUNCH" or g.startswith("MESSAGE:")) else 1
             self.emit(do="c18_waitgate", point=g, n=n, timeout_ms=10000)
-        if "LAUNCH" in op["gates"] and not op["hook"]:
+        if "LAUNCH" in gates and not self.hookgate:
             self.emit(do="settle", ms=100)  # the roster is written right after the ACCEPT
+        return gates
+
+    def op_release(self, i, g, kind="pass"):
+        """Let the request go past hold point g; the hold point of the next fault that interrupts it is armed first."""
+        keep = []
+        if self.op:
+            need = self.fault_need(i, self.op["env"], self.op["done"], self.op["gbp"])
+            if need:
+                keep = need[1]
+                for ng in keep:
+                    if ng not in self.held:
+                        self.arm(ng)
+                if need[2] and not self.hookgate:
+                    raise Undrivable("cannot park the deployment again")
+        if g not in keep:
+            self.release(g, kind)
 
     def await_op(self, last=False):
         op, self.op = self.op, None
@@ -264,8 +291,7 @@ class Conv:
                     self.emit(do="c18_waitgate", point="KILL", timeout_ms=10000)
                 else:
                     self.flush(prev)
-                    if self.op:
-                        self.wait_op_held()
+                    opgates = self.wait_op_held(i) if self.op else []
                 self.emit(do="snapshot")
                 self.emit(do="c18_mark")
                 if act == "Crash":
@@ -275,9 +301,7 @@ class Conv:
                     if mid:
                         self.release("KILL", "drop")
                     if self.op:
-                        for g in list(self.op["gates"]):
-                            if g == "LAUNCH":
-                                continue
+                        for g in [x for x in self.held if x != "LAUNCH" and not (mid and x == "KILL")]:
                             kind = "drop" if g in ("ACCEPT", "KILL") else ("drop" if (self.seed + self.sid + i) % 2 else "pass")
                             self.release(g, kind)
                         self.op["doomed"] = False
@@ -299,7 +323,7 @@ class Conv:
                 if "LAUNCH" in self.held and not self.hookgate:
                     if not self.down:
                         self.flush(prev)
-                    self.release("LAUNCH")
+                    self.op_release(i, "LAUNCH")
             elif act == "RosterAppend":
                 if self.hookgate:
                     self.flush(prev)
@@ -309,7 +333,7 @@ class Conv:
             elif act in ("ConfigureDone", "StartDone", "KillSend"):
                 if self.op and self.op["env"] == e:
                     self.flush(prev)
-                    for g in list(self.op["gates"]):
+                    for g in list(self.held):
                         self.release(g)
                     self.await_op()
             elif act == "EnvError":
@@ -469,11 +493,15 @@ def fidnum(s):
 
 
 def project(lines):
-    out, ended = [], set()
+    out, ended, started = [], set(), set()
     for ln in lines:
         scn, ev = ln.get("scn", -1), ln["ev"]
         if scn < 0 or scn in ended:
             continue
+        if ev == "Fid":
+            started.add(scn)
+        if scn not in started and ev != "Reset":
+            continue  # the tail of the core's boot (its first RECONCILE may come late)
         g = lambda k, d="": ln.get(k, d)  # noqa: E731
         if ev == "End":
             ended.add(scn)
@@ -642,6 +670,7 @@ def run(ctx):
     ctx.traces = len(scenarios)
     ctx.extra["trace_lines"] = len(plines)
     for d in drift:
+        ctx.save_debug("\n".join(json.dumps(l) for l in lines if l.get("scn") == d[1]), "drift_scn%s_seed%s.ndjson" % (d[1], ctx.seed))
         ctx.drift.append({"scn": d[1], "line": d[2], "ev": d[3], "line_text": plines[d[2] - 1] if 0 < d[2] <= len(plines) else None,
                           "model": by_id.get(d[1], {}).get("model")})
     ff = {v[2] for v in viol if v[1] == "NoFriendlyFire"}
